@@ -23,6 +23,7 @@ and call ``clk(n)``;  ('clear',) ``Waveform.clear()``;  ('clk0',) poke and call
 """
 import gc
 import itertools
+import re
 
 import py4hw
 from mc import core
@@ -88,7 +89,7 @@ BOUNDS = {
              'position; mixed 1-bit/4-bit shapes: joint histories 0..5 cycles (8 joint values per cycle) with '
              'splittings and clear/clk(0)',
     'thorough': 'single-wire shapes: all histories of 0..8 cycles, all clk(n) splittings, one clear()/clk(0) at every '
-                'position; mixed shapes: joint histories 0..6 cycles with splittings and clear/clk(0); [b,a] and [a,b] '
+                'position; mixed shapes: joint histories 0..6 cycles with splittings and clear/clk(0); [b,a] '
                 'additionally all joint clk(1) histories of 7..8 cycles',
 }
 
@@ -106,7 +107,7 @@ def _jobs(tier):
             L = 6 if T else 5
             out.append({'shape': s, 'mode': 'split', 'L': L, 'P': 1})
             out.append({'shape': s, 'mode': 'special', 'L': L, 'P': 2 if T else 1})
-            if T and s != 'mixed_all':
+            if T and s == 'mixed_ba':
                 out.append({'shape': s, 'mode': 'plain', 'L': 8, 'min_len': L + 1, 'P': 2})
         else:
             L = 8 if T else 5
@@ -257,7 +258,7 @@ def check_node(c, short_too=False):
     except core.HarnessError:
         raise
     except Exception as e:
-        bad.append(('samples', {'raised': repr(e)[:300], 'where': 'getDict'}))
+        bad.append(('samples', {'raised': _exc(e), 'where': 'getDict'}))
     wd = None
     try:
         wd = c.wf.get_wavedrom()
@@ -270,7 +271,7 @@ def check_node(c, short_too=False):
     except core.HarnessError:
         raise
     except Exception as e:
-        bad.append(('wavedrom', {'raised': repr(e)[:300], 'where': 'get_wavedrom'}))
+        bad.append(('wavedrom', {'raised': _exc(e), 'where': 'get_wavedrom'}))
     seen, out = set(), []
     for what, det in bad:
         if what not in seen:
@@ -311,6 +312,10 @@ def _check_wavedrom(c, wd, exp, n):
     return bad
 
 
+def _exc(e):
+    return re.sub(r'0x[0-9a-fA-F]+', '0x..', repr(e))[:300]
+
+
 def _lanes(wd):
     try:
         return [[l.get('wave'), l.get('data')] for l in wd['signal']]
@@ -323,11 +328,11 @@ def observe(c):
         d = c.wf.getDict()
         got = [list(d.get(w, ['<missing>'])) for w in c.wires]
     except Exception as e:
-        got = 'raised ' + repr(e)[:200]
+        got = 'raised ' + _exc(e)
     try:
         wd = _lanes(c.wf.get_wavedrom())
     except Exception as e:
-        wd = 'raised ' + repr(e)[:200]
+        wd = 'raised ' + _exc(e)
     return (got, wd)
 
 
@@ -376,6 +381,7 @@ def run_shard(d):
 
 
 def _walk(d, L):
+    py4hw.Wire.prepared = []
     shape, mode = d['shape'], d['mode']
     min_len = d.get('min_len', 0)
     prefix = d['prefix']
@@ -388,11 +394,11 @@ def _walk(d, L):
         return {'constructor_rejected': 1, 'configs': 1, 'evaluations': 0, 'distinct_nontrivial': 0,
                 'vacuous_ok': True, 'distinct_outcomes': 0,
                 'samples': [{'shape': shape, 'entries': SHAPES[shape]['entries'], 'bare': bool(SHAPES[shape].get('bare')),
-                             'rejected': repr(e)[:200]}], 'violations': []}
+                             'rejected': _exc(e)}], 'violations': []}
     st = core.SysState(c.sys, free=c.free)
     A = len(c.alpha)
     P = len(prefix)
-    every = 1 if cost(d) <= 4000 else 61
+    every = 1 if cost(d) <= 4000 else (251 if d.get('tier') == 'thorough' else 61)
     R = {'evaluations': 0, 'distinct_nontrivial': 0, 'traces_validated_against_impl': 0,
          'configs': int(mode == 'split' and not any(prefix)),
          'violations': [], 'samples': [], 'capped': False}
@@ -462,8 +468,9 @@ def _walk(d, L):
                 raise
             except Exception as e:
                 # the recorder (or the simulator driving it) raised: nothing was recorded for this cycle
+                py4hw.Wire.prepared = []
                 R['evaluations'] += 1
-                report('samples', {'raised': repr(e)[:300], 'where': 'clk' if act[0] != 'clear' else 'clear'})
+                report('samples', {'raised': _exc(e), 'where': 'clk' if act[0] != 'clear' else 'clear'})
                 path.pop()
                 if nbad[0] >= 40:
                     R['capped'] = True
@@ -495,7 +502,7 @@ def replay(v):
     except Exception as e:
         py4hw.Wire.prepared = []
         return {'shape': d['shape'], 'entries': SHAPES[d['shape']]['entries'], 'trace': v['trace'],
-                'raised': repr(e)[:300], 'violates': True}
+                'raised': _exc(e), 'violates': True}
     bad, wd = check_node(c, short_too=True)
     return {'shape': d['shape'], 'entries': SHAPES[d['shape']]['entries'], 'trace': v['trace'],
             'reference_log': expected_lanes(c), 'getDict': observe(c)[0], 'wavedrom': _lanes(wd),
